@@ -230,13 +230,19 @@ fn check(case: &Case, ev: &mut CaseEv, tier: Tier) -> CheckResult {
             learn_step: false,
             isolation: false,
             connects: accepted.clone(),
-            after_learn: false,
+            // one gradient case in three: the network is trained first, the last 1..n connections are added afterwards
+            after_learn: case.tseed % 3 == 0,
+            late_connects: if case.tseed % 3 == 0 { 1 + (case.tseed as usize / 3) % accepted.len() } else { 0 },
             near_optimum: false,
+            wscale: 1.5,
         };
         let mut ev2 = CaseEv::default();
         let r = c01::check(&c, &mut ev2, tier);
         for (n, v) in ev2.ratios {
             ev.ratio(n, v);
+        }
+        for c in ev2.classes.iter().filter(|c| c.contains("after training") || c.contains("after learn")) {
+            ev.class(c.clone());
         }
         if let Some(d) = ev2.discard {
             ev.class(format!("gradient part discarded: {}", d));
@@ -268,7 +274,7 @@ impl Prop for C16 {
         t.pick(200_000, 10_000_000)
     }
     fn rule(&self) -> String {
-        "tape-decoded 2-5-layer network (dense / convolution / deconvolution / max-pool, steered so that element counts repeat, flat<->spatial crossings occur) + 1-3 connect(a, b) calls drawn from all pairs a <= b with equal element counts (a = b, a = 0, repeated targets, repeated sources, chains (0,1),(1,2)) + one of five accumulations. Oracles: (a) acceptance model - calls with sources and targets distinct from earlier ones must be accepted, and after every accepted call all earlier pairs must still be present; (b) predict == hand-composition of the library's own layers where layer b receives acc(ordinary input, reshape(input of a)) (<= 2 ulp; when a source is itself a target both readings of 'its input' are accepted); (c) in 1/3 of the cases, additive accumulation and the C01 derivative check (f64 reference network with the skip connections) on every parameter gradient. Non-trivial: an accepted connection with a < b. Distinct = (architecture, accepted connections, accumulation).".into()
+        "tape-decoded 2-5-layer network (dense / convolution / deconvolution / max-pool, steered so that element counts repeat, flat<->spatial crossings occur) + 1-3 connect(a, b) calls drawn from all pairs a <= b with equal element counts (a = b, a = 0, repeated targets, repeated sources, chains (0,1),(1,2)) + one of five accumulations. Oracles: (a) acceptance model - calls with sources and targets distinct from earlier ones must be accepted, and after every accepted call all earlier pairs must still be present; (b) predict == hand-composition of the library's own layers where layer b receives acc(ordinary input, reshape(input of a)) (<= 2 ulp; when a source is itself a target both readings of 'its input' are accepted); (c) in 1/3 of the cases, additive accumulation and the C01 derivative check (f64 reference network with the skip connections) on every parameter gradient; in a third of those the network is first trained for two epochs with only the earlier connections and the last 1..n connections are added afterwards (history: build, connect, learn, connect, differentiate). Non-trivial: an accepted connection with a < b. Distinct = (architecture, accepted connections, accumulation).".into()
     }
     fn run_case(&self, tape: &[u32], ev: &mut CaseEv) -> CheckResult {
         check(&decode(tape), ev, self.0)
